@@ -117,7 +117,7 @@ def _lex(raw):
     if t == "S":
         return {"t": "S", "nf": nf, "idx": _int(_field(f, 1))}
     if t == "C":
-        return {"t": "C", "nf": nf, "text": raw[2:]}
+        return {"t": "C", "nf": nf, "text": raw[2:], "stext": raw[2:].strip()}
     return {"t": "?", "nf": nf}
 
 
